@@ -346,6 +346,12 @@ impl<'a, T: Transport> Transferrer<'a, T> {
             );
             Ok(Some(result))
         } else {
+            // The planner sends a directory here only when the destination holds a symlink
+            // where the source has a directory: the link is replaced, never followed
+            if let Ok(Some(_)) = self.transport.read_link(dest_path).await {
+                self.transport.remove(dest_path, false).await?;
+            }
+            self.create_directory(dest_path).await?;
             Ok(None)
         }
     }
